@@ -165,7 +165,31 @@ def r_conll_heads(repo, rep, R='R7.1'):
                 ok_adv = from_resolve and len(draws) == 1
                 detail = 'ID and head are the two halves of one draw from %s' % (src(binds[0].value)[:60] if binds else '?')
                 continue
-            if not (head_t[0] == 'binop' and head_t[1] == '+' and head_t[3] == C(1) and head_t[2][0] == 'sub' and head_t[2][1] == N('dependencies')):
+            def deps_binding(nm):
+                # how the enclosing encoder binds `nm`: 'raw' = _resolve_dependencies(tree) itself, 'plus1' = that list with one
+                # added to (and possibly str() of) every entry, made once before the walk
+                outer_fn = mod.get('conll_of')
+                tparam = outer_fn.args.args[0].arg
+                binds = [a_ for a_ in ast.walk(outer_fn) if isinstance(a_, ast.Assign) and any(isinstance(t_, ast.Name) and t_.id == nm for t_ in a_.targets)]
+                if len(binds) != 1 or any(isinstance(p_, (ast.For, ast.While)) for p_ in _parents_until(binds[0], outer_fn)):
+                    return None
+                v_ = binds[0].value
+                is_res = lambda e_: isinstance(e_, ast.Call) and src_ref(e_).replace(' ', '') == '_resolve_dependencies(%s)' % tparam
+                if is_res(v_):
+                    return 'raw'
+                if isinstance(v_, ast.ListComp) and len(v_.generators) == 1 and not v_.generators[0].ifs and isinstance(v_.generators[0].target, ast.Name):
+                    g_ = v_.generators[0]
+                    it_ok = is_res(g_.iter) or (isinstance(g_.iter, ast.Name) and deps_binding(g_.iter.id) == 'raw')
+                    e_ = v_.elt
+                    if isinstance(e_, ast.Call) and src(e_.func) == 'str' and len(e_.args) == 1:
+                        e_ = e_.args[0]
+                    if it_ok and src(e_).replace(' ', '') in ('%s+1' % g_.target.id, '1+%s' % g_.target.id):
+                        return 'plus1'
+                return None
+            if head_t[0] == 'sub' and head_t[1][0] == 'name' and deps_binding(head_t[1][1]) == 'plus1':
+                head_t = ('binop', '+', head_t, C(1))       # the +1 was applied to the whole list beforehand
+            elif not (head_t[0] == 'binop' and head_t[1] == '+' and head_t[3] == C(1) and head_t[2][0] == 'sub' and head_t[2][1][0] == 'name'
+                      and (head_t[2][1] == N('dependencies') or deps_binding(head_t[2][1][1]) == 'raw')):
                 detail = 'head column is %s' % show(head_t)[:60]
                 continue
             pos_t = head_t[2][2]
